@@ -57,14 +57,16 @@ void BEGINStatement::docatch(const RuntimeError& rt, Context& ctx) const
               )))
       {
         /* catch the user defined exception */
+        /* the error of an enclosing exception clause, else no error */
+        const RuntimeError outer = ctx.error();
         try
         {
           /* save catched error in the context */
           ctx.error(rt);
           /* it should run with the given context */
           c.second->run(ctx, c.second->statements());
-          /* clear error in the context */
-          ctx.error(RuntimeError());
+          /* restore the error of the enclosing clause */
+          ctx.error(outer);
         }
         catch (RuntimeError& rte)
         {
